@@ -364,6 +364,10 @@ impl Watcher {
 
         let uuid = UUID::new(locator, user_id);
         let found = {
+            // An appointment being added is stored first and, if its dispute has already been seen, handed to the Responder
+            // (or dropped) afterwards, holding the locator cache meanwhile (see `add_appointment`). Wait for it, otherwise a
+            // triggered appointment would be reported as being watched, which it never is.
+            let _locator_cache = self.locator_cache.lock().unwrap();
             let dbm = self.dbm.lock().unwrap();
             dbm.load_tracker(uuid)
                 .map(AppointmentInfo::Tracker)
